@@ -550,6 +550,7 @@ func TestCheck(t *testing.T) {
 	vcommon.Main(t, "C16",
 		vcommon.S("layout", 32000, 1600000, genLayoutCase(), checkCase),
 		vcommon.S("snippets", 12000, 500000, genSnippetCase(), checkCase),
+		vcommon.E("bigtoken", enumBig, checkBig),
 		vcommon.S("soup", 12000, 500000, genSoupCase(), checkCase),
 	)
 }
